@@ -546,3 +546,182 @@ pub fn replay(props: &[Prop], path: &str) -> i32 {
         }
     }
 }
+
+// ---------------------------------------------------------------------------------------------
+// libFuzzer side (thorough tier of the in-process, single-threaded properties)
+
+/// properties whose check function is a pure, single-threaded function of the input bytes
+pub const FUZZABLE: [&str; 9] = ["C01", "C08", "C09", "C11", "C12", "C13", "C14", "C18", "C19"];
+
+struct FuzzState {
+    prop: Prop,
+    known: Vec<KnownFinding>,
+    ctx: Ctx,
+    stats_path: PathBuf,
+    runs: u64,
+    passes: u64,
+    discards: u64,
+    known_hits: BTreeMap<String, u64>,
+    nontrivial: HashSet<u64>,
+    labels: BTreeMap<&'static str, u64>,
+}
+
+fn fuzz_state() -> &'static Mutex<FuzzState> {
+    static STATE: std::sync::OnceLock<Mutex<FuzzState>> = std::sync::OnceLock::new();
+    STATE.get_or_init(|| {
+        // libfuzzer-sys installs a hook that aborts on every panic; the properties observe
+        // library panics themselves (some are documented behaviour), so replace it
+        std::panic::set_hook(Box::new(|_| {}));
+        let id = std::env::var("VERIF_FUZZ_PROP").expect("set VERIF_FUZZ_PROP to a property id");
+        let prop = crate::props::all()
+            .into_iter()
+            .find(|p| p.id == id)
+            .expect("unknown property id in VERIF_FUZZ_PROP");
+        assert!(FUZZABLE.contains(&prop.id), "property {} is not fuzzed in-process", prop.id);
+        let seed: u64 = std::env::var("VERIF_SEED").ok().and_then(|s| s.parse().ok()).unwrap_or(1);
+        let stats_path = PathBuf::from(std::env::var("VERIF_FUZZ_STATS").unwrap_or_else(|_| format!("{}/target/fuzz-stats-{}.json", VERIF_DIR, id)));
+        Mutex::new(FuzzState {
+            prop,
+            known: load_known(),
+            ctx: Ctx { tier: Tier::Thorough, seed, strict: false, partition: 0 },
+            stats_path,
+            runs: 0,
+            passes: 0,
+            discards: 0,
+            known_hits: BTreeMap::new(),
+            nontrivial: HashSet::new(),
+            labels: BTreeMap::new(),
+        })
+    })
+}
+
+fn fuzz_write_stats(st: &FuzzState) {
+    let val = json!({
+        "runs": st.runs, "passes": st.passes, "discards": st.discards,
+        "distinct_nontrivial": st.nontrivial.len(), "known": st.known_hits, "labels": st.labels,
+    });
+    let _ = std::fs::write(&st.stats_path, serde_json::to_string(&val).unwrap());
+}
+
+/// body of the libFuzzer target
+pub fn fuzz_one(data: &[u8]) {
+    let mut st = fuzz_state().lock().unwrap();
+    if data.len() > st.prop.max_len {
+        return;
+    }
+    st.runs += 1;
+    let verdict = run_case(&st.prop, data, &st.ctx);
+    match verdict {
+        Verdict::Pass { nontrivial, labels } => {
+            st.passes += 1;
+            if let Some(k) = nontrivial {
+                st.nontrivial.insert(k);
+            }
+            for l in labels {
+                *st.labels.entry(l).or_insert(0) += 1;
+            }
+        }
+        Verdict::Discard(_) => st.discards += 1,
+        Verdict::Fail { sig, msg } => {
+            if is_known(&st.known, st.prop.id, &sig) {
+                *st.known_hits.entry(sig).or_insert(0) += 1;
+            } else {
+                fuzz_write_stats(&st);
+                let path = write_replay(st.prop.id, &sig, data, &msg, Tier::Thorough, st.ctx.seed, &json!({"engine": "libfuzzer"}));
+                println!("  failure [{}]: {}", sig, msg);
+                println!("VIOLATION property={} replay={}", st.prop.id, path.display());
+                use std::io::Write;
+                let _ = std::io::stdout().flush();
+                std::process::abort();
+            }
+        }
+    }
+    if st.runs % 5_000 == 0 {
+        fuzz_write_stats(&st);
+    }
+}
+
+/// starting corpus for the fuzzer: the committed regression inputs plus generated byte strings
+pub fn emit_corpus(prop: &Prop, dir: &str, seed: u64, count: usize) {
+    let _ = std::fs::create_dir_all(dir);
+    let reg_dir = Path::new(VERIF_DIR).join("regressions").join(prop.id);
+    let mut n = 0;
+    if let Ok(rd) = std::fs::read_dir(&reg_dir) {
+        for e in rd.filter_map(|e| e.ok()) {
+            if let Some(val) = std::fs::read_to_string(e.path()).ok().and_then(|t| serde_json::from_str::<Value>(&t).ok()) {
+                let bytes = from_hex(val["bytes_hex"].as_str().unwrap_or(""));
+                let _ = std::fs::write(Path::new(dir).join(format!("regression-{}", n)), bytes);
+                n += 1;
+            }
+        }
+    }
+    for k in 0..count {
+        let mut state = mix2(seed, 555_000 + k as u64);
+        let len = 8 + (state % (prop.max_len as u64 - 8)) as usize;
+        let bytes: Vec<u8> = (0..len)
+            .map(|_| {
+                state = crate::stream::mix(state);
+                (state >> 24) as u8
+            })
+            .collect();
+        let _ = std::fs::write(Path::new(dir).join(format!("generated-{}", k)), bytes);
+    }
+}
+
+/// fold the fuzzing stage into the evidence file the proptest stage wrote: `stats` are the
+/// per-process files written by `fuzz_one`, `logs` the libFuzzer logs
+pub fn merge_fuzz(id: &str, stats: &[String], logs: &[String], wall_s: f64, violations: u64) {
+    let path = Path::new(VERIF_DIR).join("evidence").join(format!("{}.json", id));
+    let mut ev: Value = serde_json::from_str(&std::fs::read_to_string(&path).expect("evidence of the proptest stage missing")).unwrap();
+    let mut runs = 0u64;
+    let mut nontrivial = 0u64;
+    let mut discards = 0u64;
+    let mut labels: BTreeMap<String, u64> = BTreeMap::new();
+    for f in stats {
+        if let Some(v) = std::fs::read_to_string(f).ok().and_then(|t| serde_json::from_str::<Value>(&t).ok()) {
+            runs += v["runs"].as_u64().unwrap_or(0);
+            nontrivial += v["distinct_nontrivial"].as_u64().unwrap_or(0);
+            discards += v["discards"].as_u64().unwrap_or(0);
+            if let Some(m) = v["labels"].as_object() {
+                for (k, x) in m {
+                    *labels.entry(k.clone()).or_insert(0) += x.as_u64().unwrap_or(0);
+                }
+            }
+        }
+    }
+    let mut cov = 0u64;
+    let mut ft = 0u64;
+    let mut corp = 0u64;
+    for f in logs {
+        if let Ok(text) = std::fs::read_to_string(f) {
+            for line in text.lines().rev() {
+                if line.contains(" cov: ") {
+                    let grab = |key: &str| -> u64 {
+                        line.split(key).nth(1).and_then(|r| r.trim().split(|c: char| !c.is_ascii_digit()).next().map(|d| d.parse().unwrap_or(0))).unwrap_or(0)
+                    };
+                    cov = cov.max(grab(" cov: "));
+                    ft = ft.max(grab(" ft: "));
+                    corp = corp.max(grab(" corp: "));
+                    break;
+                }
+            }
+        }
+    }
+    let c = ev["coverage"].as_object_mut().unwrap();
+    let base = c["evaluations"].as_u64().unwrap_or(0);
+    c.insert("evaluations".into(), json!(base + runs));
+    c.insert(
+        "libfuzzer_stage".into(),
+        json!({
+            "processes": stats.len(), "runs": runs, "discards": discards,
+            "nontrivial_cases_summed_over_processes_not_added_to_distinct_nontrivial": nontrivial,
+            "edge_coverage": cov, "features": ft, "corpus_units": corp, "labels": labels, "wall_s": wall_s,
+            "note": "coverage-guided search over the same choice-stream decoder with the same property function (oracle in-target); libFuzzer's -seed and -runs pin a campaign only approximately",
+        }),
+    );
+    let w = ev["wall_s"].as_f64().unwrap_or(0.0);
+    ev["wall_s"] = json!(w + wall_s);
+    let v = ev["violations"].as_u64().unwrap_or(0);
+    ev["violations"] = json!(v + violations);
+    std::fs::write(&path, serde_json::to_string_pretty(&ev).unwrap()).expect("cannot write evidence");
+}
